@@ -32,7 +32,7 @@ func c11Switches() []c11Switch {
 		{"binding-required/dpop", []Opt{{Name: "WithTokenBindingRequired"}, {Name: "WithDPoP"}}},
 		{"binding-required/tls", []Opt{{Name: "WithTokenBindingRequired"}, {Name: "WithTLSCertTokenBinding"}}},
 		{"openid-required", []Opt{{Name: "WithOpenIDScopeRequired"}}},
-		{"resource-required", []Opt{{Name: "WithResourceIndicatorsRequired"}}},
+		{"resource-required", []Opt{{Name: "WithResourceIndicatorsRequired", S: "https://rs.example"}}},
 		{"jwt-bearer-authn-required", []Opt{{Name: "WithJWTBearerGrantClientAuthnRequired"}}},
 		{"jarm", []Opt{{Name: "WithJARM"}}},
 		{"prefix+dpop-required", []Opt{{Name: "WithPathPrefix", S: "/auth"}, {Name: "WithDPoPRequired"}}},
